@@ -7,6 +7,7 @@ C14 — line protocol of the index-side model (`x` ops; core only).
 every op answers `<op specific> | <state dump>`.
 -/
 import OG.C14.Index
+import OG.C14.Align
 
 namespace OG.C14.Ix
 
@@ -105,7 +106,7 @@ def stepX (σ : Option St) (ws : List String) : Option St × String :=
     | _, _, _ => (σ, "bad-op")
   | some σ, ["tick", dt] =>
     match dt.toInt? with
-    | some dt => if 0 ≤ dt then let σ := step σ (.tick dt); (some σ, "ok | " ++ dump σ) else (some σ, "bad-op")
+    | some dt => let σ := step σ (.tick dt); (some σ, "ok | " ++ dump σ)
     | none => (some σ, "bad-op")
   | some σ, ["alter", d] =>
     match d.toInt? with
@@ -131,3 +132,33 @@ def stepX (σ : Option St) (ws : List String) : Option St × String :=
   | _, _ => (σ, "bad-op")
 
 end OG.C14.Ix
+
+namespace OG.C14.Al
+
+/-- `g` ops — the catalogue's assignment of shard groups to index groups:
+  g new <sgd> <igd>            → ok <sgd> <igd>          (durations after normalisation)
+  g sg <t>                     → sg <s> <e> ig <s> <e> | exists
+  g alter <sgd|-> <igd|->      → ok <sgd> <igd> -/
+def stepG (c : Option Cat) (ws : List String) : Option Cat × String :=
+  match c, ws with
+  | _, ["new", s, i] =>
+    match s.toInt?, i.toInt? with
+    | some s, some i => if 0 < s && 0 ≤ i then let c := Cat.init s i; (some c, s!"ok {c.sgd} {c.igd}") else (c, "bad-op")
+    | _, _ => (c, "bad-op")
+  | some c, ["sg", t] =>
+    match t.toInt? with
+    | some t =>
+      match createSG c t with
+      | (c', some (sg, ig)) => (some c', s!"sg {sg.s} {sg.e} ig {ig.s} {ig.e}")
+      | (c', none) => (some c', "exists")
+    | none => (some c, "bad-op")
+  | some c, ["alter", s, i] =>
+    match Ix.parseOptInt s, Ix.parseOptInt i with
+    | some s, some i =>
+      if (match s with | some v => 0 < v | none => true) && (match i with | some v => 0 ≤ v | none => true) then
+        let c := alter c s i; (some c, s!"ok {c.sgd} {c.igd}")
+      else (some c, "bad-op")
+    | _, _ => (some c, "bad-op")
+  | _, _ => (c, "bad-op")
+
+end OG.C14.Al
